@@ -31,6 +31,10 @@ def normalize(
         Minimum values for each column.
 
     """
+    data = np.asarray(data)
+    if data.dtype.kind != "f":
+        # integer arithmetic wraps around silently and numpy refuses to subtract booleans
+        data = data.astype(float)
     if d_min is None:
         d_min = np.min(data, axis=0)
     if d_max is None:
